@@ -165,6 +165,14 @@ func init() {
 			return ""
 		}
 		var ops []concOp
+		// texts the parser rejects: the error path is an operation like any other (it may leave state behind)
+		for _, t := range j.strs("rejects") {
+			t := t
+			ops = append(ops, concOp{eco.Name + "|NewVersion!|" + t, func() string {
+				_, nilv, err, p := eco.ParseV(t)
+				return fmt.Sprintf("nil=%t err=%t%s", nilv, err != nil, pr(p))
+			}})
+		}
 		for i := range vals {
 			i := i
 			ops = append(ops, concOp{eco.Name + "|String|" + vstr[i], func() string { s, p := eco.VStr(vals[i]); return s + pr(p) }})
@@ -210,6 +218,14 @@ func init() {
 				}})
 			}
 		}
+		// parsing operations are few among the observers; goroutines pick one of them every third call so that
+		// concurrent parses (shared scratch state inside a parser) actually overlap
+		var parseOps []concOp
+		for _, op := range ops {
+			if strings.Contains(op.key, "|NewVersion") {
+				parseOps = append(parseOps, op)
+			}
+		}
 		rnd := rand.New(rand.NewSource(seed))
 		ev.SnapBefore = snapshot(shared)
 		if phase == "seq" {
@@ -236,6 +252,9 @@ func init() {
 						<-start
 						for n := 0; n < 60; n++ {
 							op := ops[gr.Intn(len(ops))]
+							if len(parseOps) > 0 && n%3 == 0 {
+								op = parseOps[gr.Intn(len(parseOps))]
+							}
 							local = append(local, concRes{op.key, safeRun(op.run)})
 						}
 						mu.Lock()
